@@ -27,6 +27,13 @@ func (l *LQueue[T]) Enqueue(item T) {
 	l.mu.Lock()
 	defer l.mu.Unlock()
 
+	// An empty queue still holds the list's mandatory head node: reuse it.
+	if l.n == 0 {
+		l.n = 1
+		l.list.Replace(l.list.First(), item)
+		return
+	}
+
 	l.n++
 	l.list.Append(item)
 }
@@ -36,6 +43,10 @@ func (l *LQueue[T]) Enqueue(item T) {
 func (l *LQueue[T]) Dequeue() (item T) {
 	l.mu.Lock()
 	defer l.mu.Unlock()
+
+	if l.n == 0 {
+		return item
+	}
 
 	node := l.list.Shift()
 	l.n--
@@ -54,6 +65,10 @@ func (l *LQueue[T]) Peek() T {
 func (l *LQueue[T]) Search(item T) bool {
 	l.mu.Lock()
 	defer l.mu.Unlock()
+
+	if l.n == 0 {
+		return false
+	}
 
 	if _, ok := l.list.Find(item); ok {
 		return true
@@ -77,4 +92,8 @@ func (l *LQueue[T]) Clear() {
 
 	l.n = 0
 	l.list.Clear()
+
+	// The head node survives Clear: reset its value too.
+	var zero T
+	l.list.Replace(l.list.First(), zero)
 }
